@@ -565,4 +565,46 @@ P_C10(c) ==
         (i < j /\ rs[i].doc = rs[j].doc /\ rs[i].w = rs[j].w) =>
            rs[i].res.k = rs[j].res.k /\ rs[i].res.lines = rs[j].res.lines
   /\ \A i \in 1..Len(rs) : rs[i].w = 0 => rs[i].res.k = "narrow"
+
+(* ---- C16: custom decorators are honoured verbatim and measured by display width ----------------- *)
+\* the decorator's affix strings (observed through its trait methods) and the text they enclose
+AffixCodes(ds) == LET all == ds.link[1] \o ds.link[2] \o ds.em[1] \o ds.em[2] \o ds.strong[1] \o ds.strong[2]
+                              \o ds.strike[1] \o ds.strike[2] \o ds.code[1] \o ds.code[2] \o ds.img[1] \o ds.img[2]
+                  IN {all[i][1] : i \in 1..Len(all)}
+\* letters of V(d) interleaved with the affixes of the elements that are rendered with them
+RECURSIVE AffixStream(_, _)
+AffixStreamSeq(ns, ds) == Concat([i \in 1..Len(ns) |-> AffixStream(ns[i], ds)])
+AffixStream(n, ds) ==
+  IF n.k = "t" THEN Letters(n.s)
+  ELSE IF n.k # "e" \/ Ignored(n) THEN <<>>
+  ELSE IF IsHtml(n, "img") THEN (IF ImgVisible(n) THEN Codes(ds.img[1]) \o Letters(n.a.alt) \o Codes(ds.img[2]) ELSE <<>>)
+  ELSE LET inner == AffixStreamSeq(n.c, ds)
+           aff == CASE ~n.h -> << <<>>, <<>> >>
+                    [] n.n \in {"em", "i", "ins", "dt"} -> ds.em
+                    [] n.n = "strong" -> ds.strong
+                    [] n.n \in {"s", "del"} -> ds.strike
+                    [] n.n = "code" -> ds.code
+                    [] n.n = "a" /\ HasAttr(n, "href") /\ NonWs(FlowText(n)) # <<>> -> ds.link
+                    [] OTHER -> << <<>>, <<>> >>
+       IN Codes(aff[1]) \o inner \o Codes(aff[2])
+P_C16(c) ==
+  /\ \A i \in 1..Len(c.runs) : c.runs[i].res.k \in {"ok", "narrow"}            \* no panic with any strings
+  /\ P_C02(c)                                                                    \* the width bound by display width
+  /\ P_C07(c)                                                                    \* prefixes measured by display width
+  /\ LET a == c.runs[1]  dom == Dom1(c, a)  ds == a.cfg.ds
+         \* the characters the comparison looks at: the letters that occur in the document and the affix
+         \* characters (block prefixes may use any other character, including wide ones)
+         docLetters == LET v == Letters(FlowTextSeq(dom)) IN {v[i] : i \in 1..Len(v)}
+         keep == AffixCodes(ds) \cup docLetters
+         obs == SelectSeq(Codes(AllOut(a.res)), LAMBDA k : k \in keep)
+         exp == AffixStreamSeq(dom, ds) IN
+     \* affixes verbatim around the text (table-free documents: an empty element in a cell of an
+     \* otherwise empty column is not drawn at all, affixes included)
+     (IsOk(a) /\ "affix" \in DOMAIN c.meta /\ ~HasTable(dom)) => obs = exp
+  /\ \A i \in 1..Len(c.runs) :                                                  \* trivial decorator: nothing but the text
+        LET run == c.runs[i] IN
+        (IsOk(run) /\ run.cfg.deco = "trivial") =>
+           LET o == SelectSeq(Codes(AllOut(run.res)), LAMBDA k : ~IsWsCode(k) /\ ~IsBoxCode(k) /\ k # GV /\ k # STRIKE)
+               v == SelectSeq(NonWs(FlowTextSeq(Dom1(c, run))), LAMBDA k : k # GV /\ ~IsBoxCode(k) /\ k # STRIKE) IN
+           IF HasTable(Dom1(c, run)) /\ ~CfgOf(run.cfg).raw THEN BagOf(o) = BagOf(v) ELSE o = v
 =============================================================================
